@@ -5,6 +5,7 @@
  *     (over-read); (B) E1 over %put/%get histories against a dictionary; (C) length-limit cases. */
 #include "confcommon.h"
 #include <ctype.h>
+#include <fcntl.h>
 
 static char g_edir[300], g_odir[300], g_frag_e[330], g_frag_o[330];     /* an empty directory and one holding the single regular file "f" */
 static const char *FRAG[48] = { "a", " ", "~", "\\n", "\\\\", "\\'", "\\", "'", "\"", "$V", "${V}", "$(V)", "$E", "$U", "${U}", "${V", "$", "$VV",
@@ -165,8 +166,9 @@ static __attribute__((noinline)) char *expand_in(const char *in, size_t blk, int
     mc_dirty_heap(fill);
     mc_dirty_stack(fill, 3 * CONFIG_BUFF);
     g_env_on = 1; g_allow_fork = 0; g_exec_emul = 1;          /* commands are emulated (confcommon.h): no process is started */
+    g_rand_on = 1; g_rand_value = fill == 0xA5 ? RAND_MAX : 0;  /* the two runs of a case see the two ends of rand()'s range: a one-word %random has one answer */
     char *r = (char *) spifconf_shell_expand((spif_charptr_t) s);
-    g_env_on = 0; g_allow_fork = 1; g_exec_emul = 0;
+    g_env_on = 0; g_allow_fork = 1; g_exec_emul = 0; g_rand_on = 0;
     return r;
 }
 static void a_case(uint64_t idx, void *ctx)
@@ -181,6 +183,7 @@ static void a_case(uint64_t idx, void *ctx)
     /* exact-size input block whenever the result fits into it, else a line buffer as the API requires */
     size_t blk = (ok && R.n <= inlen) ? inlen + 1 : CONFIG_BUFF;
     char *k1, *k2; g_spawns = 0; g_errors = 0;
+    int fd_before = open("/dev/null", O_RDONLY); if (fd_before >= 0) close(fd_before);
     char *r1 = expand_in(in, blk, 0xA5, &k1);
     char res1[2048]; int null1 = (r1 == NULL); if (r1) snprintf(res1, sizeof res1, "%s", r1);
     char *r2 = expand_in(in, blk, 0x5A, &k2);
@@ -194,6 +197,8 @@ static void a_case(uint64_t idx, void *ctx)
         if (!R.foreign_percent && strcmp(res1, R.out)) { mc_esc(res1, strlen(res1), e1, sizeof e1); mc_esc(R.out, R.n, e2, sizeof e2); FAIL("spifconf_shell_expand", "model:value", shape, "result \"%s\", the expansion rules give \"%s\"", e1, e2); }
     }
     if (g_spawns) FAIL("spifconf_shell_expand", "spawn", shape, "a process was spawned: %s", g_spawn_what);
+    { int fd_after = open("/dev/null", O_RDONLY); if (fd_after >= 0) close(fd_after);
+      if (fd_after != fd_before) FAIL("spifconf_shell_expand", "fd-leak", shape, "the lowest free descriptor moved from %d to %d: expansion left a descriptor open", fd_before, fd_after); }
     free(k1); free(k2);
     if (strpbrk(in, "$%~\\'\"")) mc_nontrivial();
     mc_outcome(mc_hash_str(R.out) + (uint64_t) h + (uint64_t) ok * 3);
